@@ -34,6 +34,12 @@ fn build_sub(m: &SubModel, idx: Option<usize>) -> SubApp<()> {
             }
         });
     }
+    for c in routelab::cors_plan(m) {
+        s = match c {
+            Some(p) => s.with_cors_config(&p, humphrey::http::cors::Cors::wildcard()),
+            None => s.with_cors(humphrey::http::cors::Cors::wildcard()),
+        };
+    }
     s
 }
 
@@ -70,6 +76,12 @@ pub fn main(args: &Args) {
                         stream.shutdown().await.ok();
                     }
                 });
+            }
+            for c in routelab::cors_plan(&m.default) {
+                app = match c {
+                    Some(p) => app.with_cors_config(&p, humphrey::http::cors::Cors::wildcard()),
+                    None => app.with_cors(humphrey::http::cors::Cors::wildcard()),
+                };
             }
             for (i, h) in m.hosts.iter().enumerate() {
                 app = app.with_host(h.host.as_ref().unwrap(), build_sub(h, Some(i)));
